@@ -52,6 +52,8 @@ static llvm::cl::opt<std::string> FilesRE("files", llvm::cl::desc("regex on defi
                                           llvm::cl::init("^/repo/(cds|src)/"), llvm::cl::cat(Cat));
 static llvm::cl::opt<std::string> NamesRE("names", llvm::cl::desc("regex on stripped qualified name"),
                                           llvm::cl::init("."), llvm::cl::cat(Cat));
+static llvm::cl::opt<unsigned> MaxInst("max-inst", llvm::cl::desc("emit members of at most N specializations of each class template (0 = all)"),
+                                       llvm::cl::init(0), llvm::cl::cat(Cat));
 
 namespace {
 
@@ -714,7 +716,24 @@ public:
     if (!FRE.match(File)) return;
     std::string Name = strippedName(FD);
     if (!NRE.match(Name)) return;
+    if (MaxInst && !allowedSpecialization(FD)) return;
     Em.emitFunction(FD);
+  }
+
+  // the outermost class template specialization a function lives in; all members (and nested classes, lambdas) of the first N
+  // specializations of a class template are emitted, those of later specializations are skipped as a whole
+  bool allowedSpecialization(const FunctionDecl *FD) {
+    const ClassTemplateSpecializationDecl *Outer = nullptr;
+    for (const DeclContext *DC = FD->getDeclContext(); DC; DC = DC->getParent())
+      if (const auto *S = dyn_cast<ClassTemplateSpecializationDecl>(DC)) Outer = S;
+    if (!Outer) return true;
+    const Decl *Tmpl = Outer->getSpecializedTemplate()->getCanonicalDecl();
+    auto &V = Specs[Tmpl];
+    const Decl *Key = Outer->getCanonicalDecl();
+    for (const Decl *D : V) if (D == Key) return true;
+    if (V.size() >= MaxInst) return false;
+    V.push_back(Key);
+    return true;
   }
 
 private:
@@ -722,6 +741,7 @@ private:
   Emitter &Em;
   llvm::Regex FRE, NRE;
   std::set<const Decl *> Seen;
+  std::map<const Decl *, std::vector<const Decl *>> Specs;
 };
 
 class Consumer : public ASTConsumer {
